@@ -30,15 +30,15 @@ Theorem C02_variant_optional_expected_no_ub :
   (forall s d, returns_ok (exp_value_or s d)).
 Proof.
   split; [|split; [|split; [|split; [|split; [|split; [|split; [|split]]]]]]].
-  - intros alts ops s W O. destruct (C07.Properties.C07_variant_refines_std alts ops s W O) as (s' & E & _). exact (ok_returns_ok _ _ _ E).
-  - intros sizes vs H. exact (ok_returns_ok _ _ _ (C07.Properties.C07_visit_receives_active sizes vs H)).
-  - intros alts k a b Ha Hb. exact (ok_returns_ok _ _ _ (C07.Properties.C07_variant_relops_spec alts k a b Ha Hb)).
-  - intros s i. exact (ok_returns_ok _ _ _ (C07.Properties.C07_get_if_spec s i)).
-  - intros T U ops s W. destruct (C07.Properties.C07_optional_refines_std T U ops s W) as (s' & E & _). exact (ok_returns_ok _ _ _ E).
-  - intros k l r. exact (ok_returns_ok _ _ _ (C07.Properties.C07_optional_relops_spec k l r)).
-  - intros s d. exact (ok_returns_ok _ _ _ (C07.Properties.C07_optional_value_or_spec s d)).
-  - intros T E ops s W. destruct (C07.Properties.C07_expected_refines_std T E ops s W) as (s' & E' & _). exact (ok_returns_ok _ _ _ E').
-  - intros s d. exact (ok_returns_ok _ _ _ (C07.Properties.C07_expected_value_or_spec s d)).
+  - intros alts ops s W O. pose proof (C07.Properties.C07_variant_refines_std alts ops s W O) as HH. ok_from HH.
+  - intros sizes vs H. (pose proof (C07.Properties.C07_visit_receives_active sizes vs H) as HH; ok_from HH).
+  - intros alts k a b Ha Hb. (pose proof (C07.Properties.C07_variant_relops_spec alts k a b Ha Hb) as HH; ok_from HH).
+  - intros s i. (pose proof (C07.Properties.C07_get_if_spec s i) as HH; ok_from HH).
+  - intros T U ops s W. pose proof (C07.Properties.C07_optional_refines_std T U ops s W) as HH. ok_from HH.
+  - intros k l r. (pose proof (C07.Properties.C07_optional_relops_spec k l r) as HH; ok_from HH).
+  - intros s d. (pose proof (C07.Properties.C07_optional_value_or_spec s d) as HH; ok_from HH).
+  - intros T E ops s W. pose proof (C07.Properties.C07_expected_refines_std T E ops s W) as HH. ok_from HH.
+  - intros s d. (pose proof (C07.Properties.C07_expected_value_or_spec s d) as HH; ok_from HH).
 Qed.
 Print Assumptions C02_variant_optional_expected_no_ub.
 
@@ -48,8 +48,7 @@ Print Assumptions C02_variant_optional_expected_no_ub.
 Theorem C02_optional_ref_no_dangling_access : forall T ops s s1,
   wfr s -> sr_run (absr s) ops = Some s1 -> returns_ok (rrun T s ops).
 Proof.
-  intros T ops s s1 W H. destruct (C07.Properties.C07_optional_ref_refines_pointer_cell T ops s s1 W H) as (s' & E & _).
-  exact (ok_returns_ok _ _ _ E).
+  intros T ops s s1 W H. pose proof (C07.Properties.C07_optional_ref_refines_pointer_cell T ops s s1 W H) as HH. ok_from HH.
 Qed.
 Print Assumptions C02_optional_ref_no_dangling_access.
 End Sum.
